@@ -142,6 +142,8 @@ def miter(out_bits, ref_bits, assumptions, timeout_ms=60000, inputs=None, budget
     for k in range(len(out_bits)):
         if time.time() - t0 > budget_s:
             return "unknown", {"bit": k, "queries": queries, "reason": "miter time budget %.0fs exhausted" % budget_s}
+        if out_bits[k].eq(ref_bits[k]):
+            continue  # the same hash-consed term: equal by construction, no simplifier pass needed
         diff = z3.Xor(out_bits[k], ref_bits[k])
         d = z3.simplify(diff)
         if z3.is_false(d):
